@@ -310,6 +310,13 @@ m("number-follow-check-via-local", ["C14"], "keep", "lexer.go",
   "	if l.peekOk(0) && char.IsIdentPart(l.peek(0)) {\n		if noPanic {\n			l.Token.Kind = token.TokenBad",
   "	if glued := l.peekOk(0) && char.IsIdentPart(l.peek(0)); glued {\n		if noPanic {\n			l.Token.Kind = token.TokenBad")
 
+
+m("direction-asc-recorded-desc", ["C02"], "break", "parser.go",
+  "		dirPos = p.expect(\"ASC\").Pos\n		dir = ast.DirectionAsc",
+  "		dirPos = p.expect(\"ASC\").Pos\n		dir = ast.DirectionDesc", "round-trips; the suite has ORDER BY ... ASC? expected suite-FAIL")
+m("setop-except-recorded-intersect", ["C02"], "break", "parser.go",
+  "		case \"EXCEPT\":\n			op = ast.SetOpExcept", "		case \"EXCEPT\":\n			op = ast.SetOpIntersect")
+
 def sh(cmd, cwd=None):
     return subprocess.run(cmd, shell=True, cwd=cwd, capture_output=True, text=True)
 
